@@ -144,23 +144,29 @@ func (r *evmcRun) project(ctx sdk.Context) M {
 		st[fmt.Sprintf("s%d", id)] = int(v.Big().Int64())
 	}
 	// grants from every tracked account to every tracked account
-	grants, grantVals := M{}, M{}
+	grants, grantVals, grantExp := M{}, M{}, M{}
 	consName := map[string]string{}
 	for i := 0; i < nvals; i++ {
 		consName[r.n.W.Vals[i].ValAddr().String()] = valName(i)
 	}
 	for _, g := range r.names {
-		gm, gvm := M{}, M{}
+		gm, gvm, gxm := M{}, M{}, M{}
 		for _, e := range r.names {
 			if e == g {
 				continue
 			}
-			em, ev := M{}, M{}
+			em, ev, ex := M{}, M{}, M{}
 			for _, ty := range []string{"delegate", "undelegate", "redelegate", "cancel"} {
 				em[ty] = "none"
 				ev[ty] = []string{}
+				ex[ty] = "-"
 				a, exp := app.AuthzKeeper.GetAuthorization(ctx, r.addrs[e], r.addrs[g], stakeURLOf[ty])
 				if a != nil {
+					if exp == nil {
+						ex[ty] = "never"
+					} else {
+						ex[ty] = fmt.Sprint(exp.Unix() - GenesisTime.Unix())
+					}
 					if exp != nil && !exp.After(ctx.BlockTime()) {
 						em[ty] = "expired"
 					} else if sa, ok := a.(*stakingtypes.StakeAuthorization); ok {
@@ -184,9 +190,11 @@ func (r *evmcRun) project(ctx sdk.Context) M {
 			}
 			gm[e] = em
 			gvm[e] = ev
+			gxm[e] = ex
 		}
 		grants[g] = gm
 		grantVals[g] = gvm
+		grantExp[g] = gxm
 	}
 	mods := M{}
 	for nm, mod := range map[string]string{"bonded": stakingtypes.BondedPoolName, "notbonded": stakingtypes.NotBondedPoolName,
@@ -202,7 +210,7 @@ func (r *evmcRun) project(ctx sdk.Context) M {
 		storage["_"] = M{"_": 0}
 	}
 	return M{"bank": bank, "mods": mods, "supply": bigStr(app.BankKeeper.GetSupply(ctx, utils.BaseDenom).Amount),
-		"deleg": deleg, "ubd": ubd, "rewards": rewards, "wd": wd, "grants": grants, "grantVals": grantVals, "storage": storage, "nonce": nonce, "commission": comm}
+		"deleg": deleg, "ubd": ubd, "rewards": rewards, "wd": wd, "grants": grants, "grantVals": grantVals, "grantExp": grantExp, "storage": storage, "nonce": nonce, "commission": comm}
 }
 
 func evmcOne(tw *TraceWriter, scn int, src string, sc evmcScenario) {
